@@ -39,7 +39,7 @@ Print Assumptions C14_names_after_block.
 
 (* assign writes the template's locals, whatever is pushed on the scopes ... *)
 Theorem C14_assign_step : forall f E x e c v,
-  eval_fexpr (e_uk E) c e = Ok v ->
+  eval_fexpr (e_filters E) (e_uk E) c e = Ok v ->
   exec (S f) E (NAssign x e) c = Done (assign c x v) [] Normal /\
   alookup x (locals (assign c x v)) = Some v /\ scopes (assign c x v) = scopes c.
 Proof.
@@ -57,9 +57,9 @@ Print Assumptions C14_capture_step.
 
 (* assignment from inside ANY nesting of with / for / if / capture blocks: the value is in the locals once all
    the blocks have ended (for over a non-empty range, if with a true condition, capture of another name) *)
-Theorem C14_assign_toplevel : forall uk fs x lv fuel md ld c c' o s,
+Theorem C14_assign_toplevel : forall uk fs x lv fuel md ld ft c c' o s,
   (forall f c0, In f fs -> frame_ok_for x uk c0 f) ->
-  exec fuel (Env md uk ld) (wrap_frames fs (NAssign x (FPlain (ELit lv) []))) c = Done c' o s ->
+  exec fuel (Env md uk ld ft) (wrap_frames fs (NAssign x (FPlain (ELit lv) []))) c = Done c' o s ->
   (s = Normal \/ exists e, s = Raise e) /\ (s = Normal -> alookup x (locals c') = Some (val_of_scalar lv)).
 Proof. exact assign_under_blocks. Qed.
 Print Assumptions C14_assign_toplevel.
@@ -88,35 +88,50 @@ Proof. exact eval_path_restyle. Qed.
 Print Assumptions C14_path_notation.
 
 (* paths: index -k is the k-th item from the end; indexes outside -len .. len-1 are missing *)
-Theorem C14_path_negative_index : forall (l : list val) k z,
-  ((1 <= k <= zlen l)%Z -> get_item (VList l) (KI (- k)) = nth_error l (Z.to_nat (zlen l - k))) /\
-  ((0 <= z < zlen l)%Z -> get_item (VList l) (KI z) = nth_error l (Z.to_nat z)) /\
-  ((z >= zlen l \/ z < - zlen l)%Z -> get_item (VList l) (KI z) = None).
+Theorem C14_path_negative_index : forall g (l : list val) k z,
+  ((1 <= k <= zlen l)%Z -> get_item g (VList l) (KI (- k)) = nth_error l (Z.to_nat (zlen l - k))) /\
+  ((0 <= z < zlen l)%Z -> get_item g (VList l) (KI z) = nth_error l (Z.to_nat z)) /\
+  ((z >= zlen l \/ z < - zlen l)%Z -> get_item g (VList l) (KI z) = None).
 Proof.
-  intros l k z. repeat split; intro H; rewrite get_item_index_list.
+  intros g l k z. repeat split; intro H; rewrite get_item_index_list.
   - apply py_index_negative; exact H.
   - apply py_index_nonneg; exact H.
   - apply py_index_out_of_range; exact H.
 Qed.
 Print Assumptions C14_path_negative_index.
 
-(* paths: the size / first / last table (a key of that name in a dict wins) *)
-Theorem C14_path_size_first_last : forall l s d,
-  get_item (VList l) (KS s_size) = Some (VInt (zlen l)) /\
-  get_item (VStr s) (KS s_size) = Some (VInt (zlen s)) /\
-  get_item (VDict d) (KS s_size) = (match alookup s_size d with Some v => Some v | None => Some (VInt (zlen d)) end) /\
-  get_item (VList l) (KS s_first) = hd_error l /\
-  get_item (VList l) (KS s_last) = py_index l (-1) /\
-  get_item (VDict d) (KS s_first) =
+(* paths: the size / first / last table (a key of that name in a dict wins), under EVERY combination of the string flags *)
+Theorem C14_path_size_first_last : forall g l s d,
+  get_item g (VList l) (KS s_size) = Some (VInt (zlen l)) /\
+  get_item g (VStr s) (KS s_size) = Some (VInt (zlen s)) /\
+  get_item g (VDict d) (KS s_size) = (match alookup s_size d with Some v => Some v | None => Some (VInt (zlen d)) end) /\
+  get_item g (VList l) (KS s_first) = hd_error l /\
+  get_item g (VList l) (KS s_last) = py_index l (-1) /\
+  get_item g (VDict d) (KS s_first) =
     (match alookup s_first d with
      | Some v => Some v
      | None => match d with (k0, v0) :: _ => Some (VTuple [VStr k0; v0]) | [] => None end
      end) /\
-  get_item (VStr s) (KS s_first) = None /\ get_item (VStr s) (KS s_last) = None.
+  get_item default_flags (VStr s) (KS s_first) = None /\ get_item default_flags (VStr s) (KS s_last) = None.
 Proof.
-  intros l s d. repeat split; auto using get_item_size_dict, get_item_first_list, get_item_first_dict.
+  intros g l s d. repeat split; auto using get_item_size_dict, get_item_first_list, get_item_first_dict.
 Qed.
 Print Assumptions C14_path_size_first_last.
+
+(* paths into STRINGS under the feature flags: first / last are the first / last character exactly when
+   string_first_and_last is set (missing for the empty string), an index is a character (negative from the end, missing
+   out of range) exactly when string_sequences is set, size is always the length, a name never subscripts a string;
+   lists and dicts ignore both flags *)
+Theorem C14_path_string_flags : forall g g' s z l d k,
+  get_item g (VStr s) (KS s_first) = (if fl_first_last g then option_map char_val (hd_error s) else None) /\
+  get_item g (VStr s) (KS s_last) = (if fl_first_last g then option_map char_val (py_index s (-1)) else None) /\
+  get_item g (VStr s) (KI z) = (if fl_sequences g then option_map char_val (py_index s z) else None) /\
+  get_item g (VStr s) (KS s_size) = Some (VInt (zlen s)) /\
+  get_item g (VList l) k = get_item g' (VList l) k /\ get_item g (VDict d) k = get_item g' (VDict d) k.
+Proof.
+  intros. repeat split; auto using get_item_list_flags, get_item_dict_flags.
+Qed.
+Print Assumptions C14_path_string_flags.
 
 (* paths: with the default undefined type a path NEVER fails — anything missing is the undefined value *)
 Theorem C14_missing_is_undefined : forall c p,
@@ -131,7 +146,7 @@ Definition ex_assign (x v : string) := NAssign (slit x) (FPlain (ELit (LStr (sli
 
 (* shadowing through every layer: with > for > assign > render argument > matter > template > environment *)
 Example C14_layers_example :
-  run_case (Case MStrict UDefault []
+  run_case (Case MStrict UDefault default_flags []
               [(slit "a", VStr (slit "A"))] [(slit "a", VStr (slit "M")); (slit "m", VStr (slit "M"))]
               [(slit "m", VStr (slit "T")); (slit "t", VStr (slit "T"))] [(slit "t", VStr (slit "E")); (slit "e", VStr (slit "E"))]
               [ex_out "a"; ex_out "m"; ex_out "t"; ex_out "e"; ex_assign "e" "L"; ex_out "e";
@@ -142,15 +157,15 @@ Proof. vm_compute. reflexivity. Qed.
 
 (* the hypotheses of C14_assign_toplevel are satisfiable: assign under with > for > capture > if *)
 Example C14_assign_toplevel_example :
-  exists c' o, exec 10 (Env MStrict UDefault [])
+  exists c' o, exec 10 (Env MStrict UDefault [] no_filters)
      (wrap_frames [FWith [(slit "x", ELit (LInt 1))]; FFor (slit "x") 1 2; FCapture (slit "y"); FIf (CAtom (CTruthy (ELit (LBool true)))) []]
-                  (NAssign (slit "x") (FPlain (ELit (LStr (slit "v"))) []))) (init_ctx (Case MStrict UDefault [] [] [] [] [] []))
+                  (NAssign (slit "x") (FPlain (ELit (LStr (slit "v"))) []))) (init_ctx (Case MStrict UDefault default_flags [] [] [] [] [] []))
      = Done c' o Normal /\ alookup (slit "x") (locals c') = Some (VStr (slit "v")) /\ scopes c' = [].
 Proof. eexists. eexists. vm_compute. repeat split. Qed.
 
 (* an error inside nested blocks, swallowed in lax mode: the probes afterwards see no leftover scope *)
 Example C14_error_balance_example :
-  run_case (Case MLax UDefault [] [] [] [] []
+  run_case (Case MLax UDefault default_flags [] [] [] [] []
               [NWith [(slit "x", ELit (LInt 1))] [NFor (slit "y") (IRange 1 2) [ex_out "y"; NRender (slit "missing") None []; NText (slit "z")] []];
                NText (slit "["); ex_out "x"; ex_out "y"; NText (slit "]")])
   = Ok (slit "1[]").
@@ -159,11 +174,24 @@ Proof. vm_compute. reflexivity. Qed.
 (* include shares the caller's scope (reads the with-bound x and the local y, its assignment to z survives);
    the hypotheses of the two include theorems hold in such a run *)
 Example C14_include_example :
-  run_case (Case MStrict UDefault [(slit "p", [ex_out "x"; ex_out "y"; ex_assign "z" "pz"])] [] [] [] []
+  run_case (Case MStrict UDefault default_flags [(slit "p", [ex_out "x"; ex_out "y"; ex_assign "z" "pz"])] [] [] [] []
               [ex_assign "y" "ly"; NWith [(slit "x", ELit (LStr (slit "wx")))] [NInclude (slit "p") None []]; ex_out "z"; ex_out "x"])
   = Ok (slit "wxlypz").
 Proof. vm_compute. reflexivity. Qed.
 
 Example C14_global_layers_hypothesis :
-  NoDup (map fst (k_tglobals (Case MStrict UDefault [] [] [] [(slit "m", VInt 1); (slit "t", VInt 2)] [] []))).
+  NoDup (map fst (k_tglobals (Case MStrict UDefault default_flags [] [] [] [(slit "m", VInt 1); (slit "t", VInt 2)] [] []))).
 Proof. repeat constructor; simpl; intuition discriminate. Qed.
+
+(* the four flag combinations on one template: s.first, s.last, s[1], s[-1], s.size and a for loop over s = "abc" *)
+Definition flag_probe (fl sq : bool) : res str :=
+  let sp seg := NOut (FPlain (EPath (Path (slit "s") [seg])) []) in
+  run_case (Case MStrict UDefault (Flags fl sq) [] [(slit "s", VStr (slit "abc"))] [] [] []
+              [sp (SKey Dot (KName (slit "first"))); NText (slit "|"); sp (SKey Dot (KName (slit "last"))); NText (slit "|");
+               sp (SKey Dot (KIndex 1)); NText (slit "|"); sp (SKey Dot (KIndex (-1))); NText (slit "|");
+               sp (SKey Dot (KName (slit "size"))); NText (slit "|");
+               NFor (slit "ch") (IPath (Path (slit "s") [])) [ex_out "ch"; NText (slit ",")] []]).
+Example C14_string_flags_example :
+  flag_probe false false = Ok (slit "||||3|abc,") /\ flag_probe true false = Ok (slit "a|c|||3|abc,") /\
+  flag_probe false true = Ok (slit "||b|c|3|a,b,c,") /\ flag_probe true true = Ok (slit "a|c|b|c|3|a,b,c,").
+Proof. vm_compute. repeat split. Qed.
